@@ -445,7 +445,10 @@ BlockBase(b, s) ==
 (* ------------------------------------------------------------------ the caller's array
    upgma() and neighbor_joining() take any two-dimensional numeric array and work on a copy: the
    caller's array holds the same matrix after a call, so a second call on it (or a comparison of
-   the tree with it) sees the same matrix.  A session is a sequence of calls on one array. *)
+   the tree with it) sees the same matrix.  A session is a sequence of calls on one array.
+   The returned tree is a value of its own as well: the driver overwrites the array while it observes
+   the tree (and restores it for the next call), so a tree that still referred to the caller's memory
+   would not have the postcondition for the matrix of the call. *)
 ArrayKinds == {"f8", "f4", "i8", "i4", "u1", "f4F", "f4ro", "f8ro", "f4view"}
 \*  f8 / f4 float64 / float32, i8 / i4 / u1 integers, F = column-major, ro = write-protected,
 \*  view = every second row and column of a larger float32 array
